@@ -137,8 +137,15 @@ func gen(f vh.Flags, r *vrand.R, emit func(In)) {
 
 func exec1(in In) vh.Result {
 	sj, _ := json.Marshal(in)
+	// everything the child creates (index, copies) lives under one scratch directory removed here,
+	// also when the child is killed or exits from its watchdog
+	scratch, err := os.MkdirTemp("", "vh_c11_run_")
+	if err != nil {
+		return vh.Result{Direct: &vh.Direct{Kind: "error", Detail: "tempdir: " + err.Error()}}
+	}
+	defer os.RemoveAll(scratch)
 	cmd := exec.Command(os.Args[0])
-	cmd.Env = append(os.Environ(), "VH_CHILD="+string(sj), "GORACE=halt_on_error=0 exitcode=66")
+	cmd.Env = append(os.Environ(), "VH_CHILD="+string(sj), "GORACE=halt_on_error=0 exitcode=66", "TMPDIR="+scratch)
 	var ob, eb strings.Builder
 	cmd.Stdout = &ob
 	cmd.Stderr = &eb
